@@ -2,7 +2,7 @@
 another; the templates keep the copies identical where the code is identical)."""
 from vf.extract import FnC, Sel, Mod, Clause
 
-PRELUDE_BLOCK = ['00_base.rs', '05_ranges.rs', '10_inout.rs', '20_cipher.rs', '30_inoutbuf.rs', '40_stream.rs', '45_bytes.rs', '50_fmt_zeroize.rs']
+PRELUDE_BLOCK = ['00_base.rs', '05_ranges.rs', '10_inout.rs', '20_cipher.rs', '30_inoutbuf.rs', '40_stream.rs', '35_stream_shims.rs', '45_bytes.rs', '50_fmt_zeroize.rs']
 
 
 def xor_fn(props=('C02',), kani=('xor_helper',)):
@@ -185,8 +185,8 @@ def DEPS(count=False):
     """modules extracted from the pinned `cipher` crate (verified dependency text).  Every unit includes
     them (the repo code is checked against their contracts); their obligations are COUNTED only in the
     `deps` unit, so count=False strips the property tags here."""
-    from contracts import dep_block
-    mods = dep_block.mods()
+    from contracts import dep_block, dep_stream
+    mods = dep_block.mods() + dep_stream.mods()
     if not count:
         for m in mods:
             for sel in m.items:
@@ -194,4 +194,11 @@ def DEPS(count=False):
                     fc.props = ()
                     for c in fc.ensures:
                         c.props = ()
+                    # bodies of the dependency are verified once, in the `deps` unit; elsewhere only their
+                    # contracts are used (modular verification), so the bodies are not re-verified
+                    fc.external_body = True
+                    fc.note = 'dependency text: body verified in unit `deps`'
+                    fc.stmts = {}
+                    fc.loops = {}
+                    fc.iters = {}
     return mods
